@@ -133,6 +133,27 @@ def ps_check(kind, case, rec):
         for i in range(2):
             T[3 * a3 + i, 2 * a2 + i] = 1
     rec.close("stiffness: T^T K_slab T = t * K_ps", float(np.abs(T.T @ K_3d @ T - t * K_ps).max()) / (t * float(np.abs(K_ps).max())), 1e-11)
+    # the condensed nearly-incompressible body in both models, asked in the same order: both bodies are created and evaluated on
+    # the undeformed fields, the displacements are then changed in place and the matrix (or the vector) is the FIRST thing asked for
+    mu_c = 1.0 + (case["seed"] % 7) / 4.0
+    g2 = fem.FieldContainer([fem.FieldPlaneStrain(r2, dim=2)])
+    g3 = fem.FieldContainer([fem.Field(r3, dim=3)])
+    c2 = fem.SolidBodyNearlyIncompressible(fem.NeoHooke(mu=mu_c), g2, bulk=20.0 * mu_c)
+    c3 = fem.SolidBodyNearlyIncompressible(fem.NeoHooke(mu=mu_c), g3, bulk=20.0 * mu_c)
+    for b_, g_ in ((c2, g2), (c3, g3)):
+        b_.assemble.vector(g_)
+        b_.assemble.matrix(g_)
+    g2[0].values[...] = u2
+    g3[0].values[:, :2] = u2[col]
+    if case["seed"] % 2:
+        Kc2 = np.asarray(c2.assemble.matrix(g2).toarray()).copy()
+        Kc3 = np.asarray(c3.assemble.matrix(g3).toarray()).copy()
+        rec.close("condensed body, matrix first after an in-place change: T^T K_slab T = t * K_ps", float(np.abs(T.T @ Kc3 @ T - t * Kc2).max()) / (t * float(np.abs(Kc2).max())), 1e-11)
+    rc2 = np.asarray(c2.assemble.vector(g2).toarray()).reshape(-1, 2).copy()
+    rc3 = np.asarray(c3.assemble.vector(g3).toarray()).reshape(-1, 3).copy()
+    sc_c = np.zeros_like(rc2)
+    np.add.at(sc_c, col, rc3[:, :2])
+    rec.close("condensed body: forces slab = t * plane-strain", float(np.abs(sc_c - t * rc2).max()) / (t * max(float(np.abs(rc2).max()), 1e-9)), 1e-11)
     # out-of-plane: no resultant force in z for a z-independent state
     fz = np.zeros(n2)
     np.add.at(fz, col, r_3d[:, 2])
